@@ -35,6 +35,21 @@ impl Arena {
     }
 
     pub fn from_input(name: &str, code: &str, input: serde_json::Value) -> Arena {
+        let mut a = Arena::from_input_no_inits(name, code, input);
+        let empty = solution::Schedule::empty(a.nw.clone());
+        let start = solver::min_cost_flow_solver::MinCostFlowSolver::initialize(a.nw.clone()).solve();
+        let improved = start.improve_depots(None);
+        a.inits = vec![("empty", empty), ("min_cost_flow", start), ("min_cost_flow+improve_depots", improved)];
+        a
+    }
+
+    /// network, spec and node map only (no solver run)
+    pub fn load_no_inits(name: &str, code: &str) -> Arena {
+        let inst = Inst::from_code(code).expect("arena code");
+        Arena::from_input_no_inits(name, code, inst.to_json())
+    }
+
+    pub fn from_input_no_inits(name: &str, code: &str, input: serde_json::Value) -> Arena {
         let spec = Spec::from_input(&input).expect("spec");
         let nw = model::json_serialisation::load_rolling_stock_problem_instance_from_json(input.clone());
         let mut viol = vec![];
@@ -57,10 +72,7 @@ impl Arena {
             let loc = if dep.id() == crate::spec::OVERFLOW_DEPOT_ID { None } else { spec.loc_by_id(&nw.locations().get_id(dep.location()).unwrap()) };
             depot_loc.insert(d, loc);
         }
-        let empty = solution::Schedule::empty(nw.clone());
-        let start = solver::min_cost_flow_solver::MinCostFlowSolver::initialize(nw.clone()).solve();
-        let improved = start.improve_depots(None);
-        let inits = vec![("empty", empty), ("min_cost_flow", start), ("min_cost_flow+improve_depots", improved)];
+        let inits = vec![];
         Arena { name: name.to_string(), code: code.to_string(), input, spec, nw, nm, types, type_of, acts, start_depots, end_depots, depot_loc, inits }
     }
 
